@@ -313,7 +313,11 @@ def run_json_truncations(chk: Check, base, full, r_old, r_new, L1, L2, step):
             chk.disagree("restore outcome != model for a byte-level partial write", {"file": name, "bytes": b, "file_states": vec, "impl": outcome, "model": ans, "detail": detail})
         if outcome == "hybrid":
             k = next((i for i, v in enumerate(vec) if v not in "DS"), 4)
-            sig = f"C06/json/hybrid@prefix:{name}"
+            where = ""
+            if name == FILES[3]:
+                full_bytes = open(os.path.join(full, name), "rb").read()
+                where = ":inside-the-header-line" if b <= full_bytes.index(b"\n") else ":after-the-header-line"
+            sig = f"C06/json/hybrid@prefix:{name}{where}"
             chk.fail(f"restore with {name} cut after {b}/{n} bytes returns a mixture: {detail}",
                      {"case": {"kind": "trunc", "file": name, "bytes": b, "file_states": vec}}, signature=sig)
 
